@@ -27,13 +27,7 @@ def orderRefs (ax : Bool) (r1 r2 : ZPt) : ZPt × ZPt :=
 /-- `_iup_worker_interpolate`, the body of either `for ( i = p1; i <= p2; i++ )` loop for one point:
 `x` = `orgs[i].x`, `u` = `orus[i].x`.  `scale` is computed on first use (`scale_valid`); its value
 `FT_DivFix( cur2 - cur1, orus2 - orus1 )` does not depend on `i`. -/
-def interpCoord (ax : Bool) (r1 r2 : ZPt) (x u : Int) : Int :=
-  let orus1 := co ax r1.orus
-  let orus2 := co ax r2.orus
-  let org1 := co ax r1.org
-  let org2 := co ax r2.org
-  let cur1 := co ax r1.cur
-  let cur2 := co ax r2.cur
+def interpCore (orus1 orus2 org1 org2 cur1 cur2 x u : Int) : Int :=
   let delta1 := subLong cur1 org1
   let delta2 := subLong cur2 org2
   if cur1 = cur2 ∨ orus1 = orus2 then
@@ -44,6 +38,9 @@ def interpCoord (ax : Bool) (r1 r2 : ZPt) (x u : Int) : Int :=
     else
       let scale := divFix (subLong cur2 cur1) (subLong orus2 orus1)
       addLong cur1 (mulFix (subLong u orus1) scale)
+
+def interpCoord (ax : Bool) (r1 r2 : ZPt) (x u : Int) : Int :=
+  interpCore (co ax r1.orus) (co ax r2.orus) (co ax r1.org) (co ax r2.org) (co ax r1.cur) (co ax r2.cur) x u
 
 def mapRange (pts : List ZPt) (p1 p2 : Nat) (f : ZPt → ZPt) : List ZPt :=
   (pts.zipIdx).map fun (p, i) => if p1 ≤ i ∧ i ≤ p2 then f p else p
